@@ -481,3 +481,105 @@ def path_int_env(f, path):
                 cmpv = (ds[0][3]["op"], ds[0][3]["a"], val(ds[0][3]["a"]), ds[0][3]["b"], val(ds[0][3]["b"]))
             conds.append((b, o, outcome, cmpv))
     return env, calls, conds
+
+
+# ---------------------------------------------------------------- path-wise values (small enums carried between two matches)
+TRANSPARENT_CONV = ("to_string", "to_owned", "into", "from", "clone", "deref", "as_str", "as_ref", "borrow")
+
+
+def path_value(f, path, op, upto=None, depth=8):
+    """canonical text of the value an operand has at the end of one path (or before position `upto` = (path index, statement index)), when that value is
+    a constant built on the path: literals, unit variants, aggregates of such, seen through copies, references and text conversions; None otherwise."""
+    import json as _json
+    if depth < 0 or not isinstance(op, dict):
+        return None
+    c = op.get("const")
+    if c is not None:
+        return _json.dumps({k_: v_ for k_, v_ in c.items() if k_ not in ("ty", "span")}, sort_keys=True, default=str)
+    pl = op.get("copy") or op.get("move")
+    if pl is None:
+        return None
+    return _path_place_value(f, path, pl, upto if upto is not None else (len(path), 0), depth)
+
+
+def _path_place_value(f, path, pl, upto, depth):
+    import json as _json
+    proj = [p_ for p_ in pl.get("p", []) if p_.get("k") != "deref"]
+    if proj:
+        return None
+    l = pl["l"]
+    pi, si = upto
+    for i in range(min(pi, len(path) - 1), -1, -1):
+        b = path[i][0]
+        blk = f.blocks[b]
+        # the call terminating block i defines its destination for the blocks after it
+        if i < pi and blk["term"]["k"] == "call" and not blk["term"]["dest"].get("p") and blk["term"]["dest"]["l"] == l:
+            c = f.call_at(b)
+            if c is not None and c.name in TRANSPARENT_CONV and c.args:
+                return path_value(f, path, c.args[0], (i, len(blk["stmts"])), depth - 1)
+            return None
+        stmts = blk["stmts"]
+        hi = si if i == pi else len(stmts)
+        for k in range(min(hi, len(stmts)) - 1, -1, -1):
+            st = stmts[k]
+            lhs = st.get("lhs")
+            if lhs is None or lhs["l"] != l:
+                continue
+            if lhs.get("p"):
+                return None         # written piecewise
+            rv = st.get("rv") or {}
+            kk = rv.get("k")
+            if kk in ("use", "cast"):
+                return path_value(f, path, rv["op"], (i, k), depth - 1)
+            if kk in ("ref", "copy_for_deref"):
+                return _path_place_value(f, path, rv["place"], (i, k), depth - 1)
+            if kk == "aggr":
+                parts = [path_value(f, path, a, (i, k), depth - 1) for a in rv.get("ops", [])]
+                if any(x is None for x in parts):
+                    return None
+                return _json.dumps({"agg": rv.get("agg"), "adt": rv.get("adt"), "variant": rv.get("variant"), "ops": parts}, sort_keys=True)
+            return None
+    if 1 <= l <= f.arg_count:
+        return None
+    return None
+
+
+def path_feasible(f, path):
+    """False when the path takes a branch that contradicts a unit variant it assigned earlier (`shape = Unit; .. match shape { Tuple => <here> }`)"""
+    import json as _json
+    for i, (b, lab) in enumerate(path):
+        t = f.blocks[b]["term"]
+        if lab is None or t["k"] != "switch":
+            continue
+        pl = t["discr"].get("copy") or t["discr"].get("move")
+        if pl is None or pl.get("p"):
+            continue
+        # discr local <- discriminant(place) on this path
+        src = None
+        for i2 in range(i, -1, -1):
+            stmts = f.blocks[path[i2][0]]["stmts"]
+            for st in reversed(stmts):
+                if st.get("lhs") and st["lhs"]["l"] == pl["l"] and not st["lhs"].get("p"):
+                    rv = st.get("rv") or {}
+                    if rv.get("k") == "discr":
+                        src = (rv, i2, stmts.index(st))
+                    break
+            else:
+                continue
+            break
+        if src is None:
+            continue
+        rv, i2, k2 = src
+        v = _path_place_value(f, path, rv["place"], (i2, k2), 6)
+        if v is None:
+            continue
+        try:
+            var = _json.loads(v).get("variant")
+        except Exception:  # noqa
+            continue
+        if var is None:
+            continue
+        outcome = f.cond_struct(b, lab)[1]
+        if var not in str(outcome).split("|"):
+            return False
+    return True
